@@ -17,7 +17,7 @@ CLAIMED = {
  'C08': ('Coq proof: row-DP weighted Levenshtein = minimum alignment cost for all weights (attained and minimal against the inductive alignment relation), upper bound wd*|a|+wi*|b| (exact storage guard), condensed-index bijection and loop layout for any metric; differential runs vs rapidfuzz / python-Levenshtein / metric classes / pdist / cdist',
          'Theorems C08_* (coq/props/C08.v): the executable DP is the optimal edit cost with insertion/deletion roles fixed by the alignment relation (a swap is visible), unit weights give Levenshtein, the value is bounded so no wrap occurs below the stated dtype limits, pdist_loop puts f(x_i,x_j) at m*i+j-(i+2)(i+1)/2 for any f and any collection, cdist_loop at [i][j], calc_pdist_vector is squareform of the self cdist, the index map is a bijection onto 0..m(m-1)/2-1; the loop nests of distance.pdist / cdist are regenerated from the source on every run (store-passing encoding) and proved equal to pdist_loop / cdist_loop for all inputs (C08_source_pdist/_cdist, coq/props/C08g.v).',
          COMMON_NOTE + 'rapidfuzz process.cdist result dtype and values (tied by exhaustive small-domain correspondence), scipy squareform(checks=False).', 'DESIGN.md section 4 C08'),
- 'C03': ('Coq proof of SymdelDB.lookup and LookupDB.lookup models (edit ball = breadth-first closure, proved exact), history invariance by induction; differential runs incl. database histories',
+ 'C03': ('Coq proof of SymdelDB.lookup and LookupDB.lookup models (edit ball = breadth-first closure, proved exact), class SymdelDB regenerated from nn.py and proved exact in its three distance modes for any set iteration order, history invariance by induction; differential runs incl. database histories',
          'Theorems C03_* (coq/props/C03.v): two-collection symdel and the hash lookup return exactly {(q,r,d): d = lev(query q, ref r) <= k} once each, including q = r and d = 0; the BFS ball holds exactly the strings within k edits; any lookup history leaves later answers equal to a one-shot search.',
          COMMON_NOTE + 'rapidfuzz distances; LookupDB references over the amino-acid alphabet (its documented domain).', 'DESIGN.md section 4 C03'),
  'C04': ('Coq proof: histogram pre-filter bound (sqdist <= 2k^2 for any bin map), binary64 radius sweep on the regenerated radius expression, kdtree and hash models exact, hence the three engines agree; differential runs of kdtree/hash_based',
